@@ -233,21 +233,8 @@ def run(ctx):
         chk.ob("ir-load-halts/%#05x" % a, ok,
                "loading opcode 0x00 error-stops, 0x01 stops (and is still loaded into IR for the continue key), "
                "any other byte does not halt", "control word %#05x" % a, repr(h))
-    # the stopping edge is a complete edge: the sequencer moves on exactly as it does for the byte it loaded, so that
-    # the continue key (which only sets the state back to Running) resumes with the next instruction
-    for a in sorted(g2.prog):
-        if not g2.is_load(a):
-            continue
-        h = g2.front[a].get("halts", {})
-        for label, byte in (("0x01", 1),):
-            want = sorted({a2 for _pins, a2 in g2.mt.succ(a, byte)})
-            got = h.get(label, {}).get("addr")
-            chk.ob("stop-edge-advances/%#05x" % a, isinstance(got, list) and bool(got) and set(got) <= set(want),
-                   "the edge that loads STOP leaves the micro-sequencer at the successor of the fetch word for that opcode "
-                   "(not on the fetch word), so a continue resumes with the next instruction",
-                   "control word %#05x" % a, "micro-address after the edge: %s; successors by the next-address logic: %s"
-                   % ([hex(x) for x in got] if isinstance(got, list) else got, [hex(x) for x in want]),
-                   "A4 of the clock edge with the loaded byte pinned to 0x01")
+    from .. import fetchlatch
+    fetchlatch.stop_edge_advances(ctx)
     chk.floor("IR-loading control words", nload, 15)
     # words that do not load the IR cannot halt in the IR stage (no pending commit)
     nk = 0
